@@ -831,7 +831,9 @@ class Engine:
         if self.merge:
             # in merge mode failure conditions are collected, not forked
             if self.fail_conds is not None and not self.must(z3.Not(cond)):
-                g = z3.And(*(self.scope_names + [cond])) if self.scopes else cond
+                # (the scope conditions themselves, not their names: the result may end up
+                # inside a quantifier body that is instantiated at other indices)
+                g = z3.And(*(self.scopes + [cond])) if self.scopes else cond
                 self.fail_conds.append((g, exc_cls, label))
             return
         if self.must(z3.Not(cond)):
@@ -2211,6 +2213,11 @@ def _elem_source(self, it, node):
         return n, elem
     if isinstance(it, T):
         t = z3.simplify(it.t)
+        rw = getattr(self, 'elem_rewrite', None)
+        if rw is not None:
+            r = rw(t)
+            if r is not None:
+                return r
         isl, ist, isd = V.is_VList(t), V.is_VTuple(t), V.is_VDict(t)
         sel = lambda a, i: T(z3.simplify(z3.Select(z3.simplify(a), i)))
         if self.must(isl):
